@@ -65,6 +65,7 @@ func typeAt(y *yang.YangType, depth int) *yref.XType {
 		Default:        y.Default,
 		FractionDigits: y.FractionDigits,
 		Patterns:       append([]string(nil), y.Pattern...),
+		Posix:          append([]string(nil), y.POSIXPattern...),
 		Path:           y.Path,
 		Range:          rangeSet(y.Range),
 		Length:         rangeSet(y.Length),
@@ -435,6 +436,9 @@ func DiffType(w, g *yref.XType) string {
 	}
 	if fmt.Sprint(w.Patterns) != fmt.Sprint(g.Patterns) {
 		return fmt.Sprintf("pattern: expected %q, observed %q", w.Patterns, g.Patterns)
+	}
+	if fmt.Sprint(w.Posix) != fmt.Sprint(g.Posix) {
+		return fmt.Sprintf("posix-pattern: expected %q, observed %q", w.Posix, g.Posix)
 	}
 	if !eqMap(w.Enums, g.Enums) {
 		return fmt.Sprintf("enum: expected %v, observed %v", w.Enums, g.Enums)
